@@ -57,6 +57,10 @@ pub(crate) fn extract_variable(
     // and is block level, so we can insert our variable before
     // this expression.
     let mut enclosing_block_level_expr: Option<Expression> = None;
+    // Is the enclosing block a `match` case written without braces,
+    // e.g. `Some(x) => x + 1,`? A `let` can only be added to it
+    // after giving it braces.
+    let mut in_braceless_case = false;
     'outer: for id in ids_containing_pos.iter().rev() {
         let AstId::Expr(expr_syntax_id) = id else {
             continue;
@@ -85,6 +89,10 @@ pub(crate) fn extract_variable(
             Expression_::Match(_, cases) => {
                 for (_, block) in cases {
                     if block_contains_id(block, *expr_id) {
+                        in_braceless_case = match block.exprs.first() {
+                            Some(first) => block.open_brace == first.position,
+                            None => false,
+                        };
                         break 'outer;
                     }
                 }
@@ -132,21 +140,25 @@ pub(crate) fn extract_variable(
             // All the items before this one.
             result.push_str(&src[..item_pos.start_offset]);
 
-            result.push_str(
-                &src[item_pos.start_offset..enclosing_block_level_expr.position.start_offset],
-            );
+            let enclosing_pos = &enclosing_block_level_expr.position;
+            result.push_str(&src[item_pos.start_offset..enclosing_pos.start_offset]);
+            if in_braceless_case {
+                result.push_str("{ ");
+            }
             result.push_str(&format!(
                 "let {} = {}\n{}",
                 name,
                 &src[var_init_expr.position.start_offset..var_init_expr.position.end_offset],
-                " ".repeat(enclosing_block_level_expr.position.column)
+                " ".repeat(enclosing_pos.column + if in_braceless_case { 2 } else { 0 })
             ));
 
-            result.push_str(
-                &src[enclosing_block_level_expr.position.start_offset..expr.position.start_offset],
-            );
+            result.push_str(&src[enclosing_pos.start_offset..expr.position.start_offset]);
             result.push_str(name);
-            result.push_str(&src[expr.position.end_offset..item_pos.end_offset]);
+            result.push_str(&src[expr.position.end_offset..enclosing_pos.end_offset]);
+            if in_braceless_case {
+                result.push_str(" }");
+            }
+            result.push_str(&src[enclosing_pos.end_offset..item_pos.end_offset]);
 
             // Items after.
             result.push_str(&src[item_pos.end_offset..]);
